@@ -261,7 +261,7 @@ func (v *vsConn) Write(ctx context.Context, msg jsonrpc.Message) error {
 		// The inner transport is the SDK's own (in-memory pipe / io pipe): nothing but an armed fault, a Close
 		// or the peer's end going away makes its Write fail. A failure without any of these is the SDK
 		// breaking its own transport (e.g. a stale write deadline) — it must not excuse what follows.
-		if !c.faultEver && !c.side[0].closeBegun && !c.side[1].closeBegun && !c.side[0].failed && !c.side[1].failed && !c.stopped {
+		if !c.faultEver && !c.side[0].closeBegun && !c.side[1].closeBegun && !c.side[0].failed && !c.side[1].failed && !c.stopped && c.side[0].closeCalls == 0 && c.side[1].closeCalls == 0 {
 			selfInflicted = fmt.Sprintf("C04+C05: the %s's transport Write of %s failed with %q although no fault was injected, nobody closed the session and the peer is alive: the session is no longer usable",
 				vsSideName[s.who], method, err.Error())
 		}
@@ -420,6 +420,7 @@ type vsCase struct {
 	baseGor   int
 	trace     []string
 	wfailOn   map[string]bool
+	rfailOn   map[string]bool // sides with an armed read fault (reof/rerr)
 	cbWaiting int  // tool handlers currently inside a (bounded) callback into the client
 	stopped   bool // forceCleanup has begun: programs stop issuing further steps
 	listenIDsAtClose map[string]bool // ids registered in ss.listenIDs when the harness called ServerSession.Close
@@ -976,6 +977,17 @@ func (c *vsCase) pickFault() string {
 	}
 	if k == "wfail" {
 		c.wfailOn[side] = true
+	}
+	// likewise never both READ halves failed while both pipes stay open: a side whose reader has failed
+	// stops draining its pipe, so each side's pending writes (the responses and notifications it must
+	// flush before it may close its transport) block for ever in the other's undrained pipe — the
+	// transport's Write never returns, which the proviso of C05 excludes; with real transports a reader
+	// that is gone closes its end and the writer fails instead
+	if (k == "reof" || k == "rerr") && c.rfailOn[other] {
+		k = "reject"
+	}
+	if k == "reof" || k == "rerr" {
+		c.rfailOn[side] = true
 	}
 	n := r.Intn(4)
 	if k == "reject" {
@@ -2370,7 +2382,7 @@ func (c *vsCase) cancelListens() {
 
 func vsRunCase(t *testing.T, out *verifOut, id string, seed int64, idx int) {
 	c := &vsCase{seed: seed, idx: idx, rng: vsRng(seed, idx), tags: map[string]bool{}, beh: map[string]vsBeh{},
-		listenIDsAtClose: map[string]bool{}, wfailOn: map[string]bool{}, hrec: map[string]*vsHRec{}, produced: map[string]string{}, issued: map[string][]vsIssued{}, toolsEver: map[string]bool{}}
+		listenIDsAtClose: map[string]bool{}, wfailOn: map[string]bool{}, rfailOn: map[string]bool{}, hrec: map[string]*vsHRec{}, produced: map[string]string{}, issued: map[string][]vsIssued{}, toolsEver: map[string]bool{}}
 	func() {
 		defer func() {
 			if r := recover(); r != nil {
